@@ -267,8 +267,10 @@ fn c19_o5b_from_str_ascii40_one_pair() {
 }
 
 //@ ob: C19.O5d
-//@ tier: thorough
-//@ cap: 3600
+//@ tier: quick
+//@ cap: 800
+//@ rss: 3.0
+//@ time: 140
 //@ mem: 40
 //@ alone: true
 //@ desc: on 40-byte ASCII strings from_str accepts iff all 40 characters are hex digits, and the value is the hex value
